@@ -443,6 +443,47 @@ def _pnl(ctx, prog, side, f, table):
 
 # ----------------------------------------------------------------------------- closed-market switch
 
+
+def _zero_cmp(e):
+    """(x, is_zero_test) for `x == 0` / `x != 0` (either operand order), else None."""
+    c = A.as_cmp(e)
+    if not c or c[0] not in ("==", "!="):
+        return None
+    a, b = c[1], c[2]
+    if str(b) == "0":
+        return a, c[0] == "=="
+    if str(a) == "0":
+        return b, c[0] == "=="
+    return None
+
+
+def _zero_means_none(p, r):
+    """Selected value x of an Option-returning accessor whose contract is `None iff x == 0`.
+    Accepted shapes: a branch on (x == 0)/(x != 0) returning None on the zero edge and Some(x) otherwise;
+    `bool::then_some(x != 0, x)`. Returns (x as E | None, error message | None)."""
+    if r is not None and r.k == "call" and r.a[0] == "bool::then_some" and len(r.a[1]) == 2:
+        z = _zero_cmp(r.a[1][0])
+        if z is None or z[1] or str(z[0]) != str(r.a[1][1]):
+            return None, "then_some(%s, %s) is not `(x != 0).then_some(x)`" % (r.a[1][0], r.a[1][1])
+        return r.a[1][1], None
+    for cond, lab, ty in p["conds"]:
+        if ty != "bool":
+            continue
+        z = _zero_cmp(cond)
+        if z is None:
+            continue
+        truth = isinstance(lab, tuple) or lab != 0
+        is_zero = (z[1] == truth)
+        if is_zero:
+            if not str(r).startswith("Option::None"):
+                return None, "zero factor path returns %s" % r
+            return z[0], None
+        inner = H.unwrap_ok(r)
+        if inner is None or str(inner) != str(z[0]):
+            return None, "non-zero factor path returns %s (tested value %s)" % (r, z[0])
+        return inner, None
+    return None, "result %s is not derived from a zero test of the selected factor" % r
+
 USE_CLOSED = r"^MarketConfig::use_market_closed_params\(self, %s\)$"
 
 
@@ -487,17 +528,12 @@ def _closed(ctx, prog, side, adt_re):
             sd = H.truth_on_path(p, r"^%s$" % re.escape(sparam[0])) if sparam else None
             r = p["ret"]
             inner = H.unwrap_ok(r)
-            zero = H.truth_on_path(p, r"^\(.* Eq 0\)$")
             if nm == "min_collateral_factor_for_liquidation":
-                # Option: None iff the selected factor is 0
-                if zero is True:
-                    if not str(r).startswith("Option::None"):
-                        bad.append("zero factor path returns %s" % r)
+                # Option result: "0 means None" — by a branch on (x == 0) / (x != 0) or by `(x != 0).then_some(x)`
+                val, err = _zero_means_none(p, r)
+                if err:
+                    bad.append(err)
                     continue
-                if inner is None:
-                    bad.append("non-zero factor path returns %s" % r)
-                    continue
-                val = inner
             else:
                 val = r
             m = re.match(r"^self\.([a-z0-9_]+)$", str(val))
